@@ -337,6 +337,25 @@ Fixpoint terms_eqb (a b:list term) : bool :=
 (** [BasicInterpreter.instantiate]: [if not delta: return proved] *)
 Definition basic_inst (c:pat) (d:delta) : pat := py_inst d c.
 
+(** [StatefulInterpreter.instantiate]:
+      [*self.stack, expected_proved = self.stack]
+      [expected_plugs = []; if len(delta): expected_plugs = self.stack[-len(delta):]; self.stack = self.stack[:-len(delta)]]
+    [slice0_bug = true] is the code BEFORE the fix of D11 (commit 9b6b5b9), which sliced unconditionally: with
+    [len(delta) = 0] the slices are [stack[-0:]] = everything and [stack[:-0]] = nothing. *)
+Definition inst_split (slice0_bug:bool) (n:nat) (rest:list term) : list term * list term :=
+  match n with
+  | O => if slice0_bug then (rest, []) else ([], rest)
+  | _ => (firstn n rest, skipn n rest)
+  end.
+Definition st_inst (slice0_bug:bool) (c:pat) (d:delta) (s:sstate) : option sstate :=
+  match s_stack s with
+  | top :: rest =>
+      let '(plugs, rest') := inst_split slice0_bug (length d) rest in
+      if term_eqb top (TProved c) && terms_eqb (rev plugs) (map TPat (dvals d))
+      then Some (sset (TProved (basic_inst c d) :: rest') s) else None
+  | [] => None
+  end.
+
 Definition st_step (c:call) (s:sstate) : option sstate :=
   let stk := s_stack s in
   match c with
@@ -364,18 +383,7 @@ Definition st_step (c:call) (s:sstate) : option sstate :=
       | Some rest, Imp l r => Some (sset (TProved (Imp (Ex x l) r) :: rest) s)
       | _, _ => None
       end
-  | CInst c d =>
-      (* [*self.stack, expected_proved = self.stack]
-         [expected_plugs = self.stack[-len(delta):]; self.stack = self.stack[:-len(delta)]]
-         with [len(delta) = 0] the slices are [stack[-0:]] = everything and [stack[:-0]] = nothing (D11) *)
-      match stk with
-      | top :: rest =>
-          let n := length d in
-          let '(plugs, rest') := match n with O => (rest, []) | _ => (firstn n rest, skipn n rest) end in
-          if term_eqb top (TProved c) && terms_eqb (rev plugs) (map TPat (dvals d))
-          then Some (sset (TProved (basic_inst c d) :: rest') s) else None
-      | [] => None
-      end
+  | CInst c d => st_inst false c d s
   | CPop t => option_map (fun rest => sset rest s) (pop1 t stk)
   | CSave t =>
       match stk with
